@@ -5,6 +5,7 @@ CONSTANTS
   Carol = {"c1", "c2", "c4"}
   SmallBw = {"c2"}
   PolNames = {"PA", "PB", "PC", "PD", "PE", "PF"}
+  Heights = {98, 100, 101, 104}
   HtlcNames = {"H1", "H2", "H3", "H4", "H5", "H6", "H7", "H8", "H9", "H10", "H11"}
   MaxLen = 16
 INVARIANTS Dump
